@@ -25,6 +25,7 @@ META = {
         "C19.P1 shape discriminator: the list measured by `len(...) == 1` holds members only (an optional list name is not counted)",
         "C19.P2 key derivation: each member receives exactly one key on every path (array -> its name, record -> explicit name else DATA, data item -> its name), anything else raises; a list name is handed to the list's own members only",
         "C19.P3 every generate()/get_format() call tokenizes with a fresh tokenizer (no cached cursor shared between callers)",
+        "C19.P4 members and open-list elements are materialised only through generate(): no private List/Array construction from a descriptor in the container classes",
         "C19.T1 the shipped structures parse under the documented grammar and none uses a shape on which the implementation deviates",
     ],
     "does_not_decide": ["the mapping for arbitrary generated definitions beyond P1/P2 (program-level quantifier)"],
@@ -297,8 +298,43 @@ def _shape_txt(sh, depth=0):
     return "{" + ", ".join(f"{k}: {_shape_txt(v, depth + 1)}" for k, v in sh[2]) + "}"
 
 
+def check_materialisation(ctx):
+    """C19.P4: the record-vs-array decision is taken in one place.  Members of a record and elements of an open list are
+    materialised lazily (List._generate, Array.append/set/decode); each of them must hand its descriptor to generate(),
+    and nothing in those classes builds a List or an Array from a descriptor on its own - a private shortcut decides
+    the shape of nested definitions differently from the documented rule (a one-member list inside an open list)."""
+    from .. import inline
+
+    repo = ctx.repo
+    sites = 0
+    for cname, meths, desc in (("Array", ("append", "set", "decode"), "self.item_decriptor"), ("List", ("_generate",), None)):
+        cls = repo.cls(cname)
+        for name, f in cls.methods.items():
+            ctx.touch(f)
+            direct = [c for c in calls_in(f.node) if call_name(c) in ("List", "Array", "secsgem.secs.variables.List", "secsgem.secs.variables.Array") and c.args]
+            for c in direct:
+                ctx.ob("C19.P4", f.qualname, False, f"`{norm(c)[:80]}` builds a structure from a descriptor without generate(): the record-vs-array rule (one member => open array) is not applied to it",
+                       key="direct " + norm(c.func), where=f.where)
+        direct_ok = {}
+        for m in meths:
+            f = repo.method(cname, m, inherited=False)
+            fn = inline.expanded(ctx, f, ())
+            gens = [c for c in calls_in(fn) if (call_name(c) or "").rsplit(".", 1)[-1] == "generate" and c.args]
+            direct_ok[m] = (bool(gens) and (desc is None or all(norm(c.args[0]) == desc for c in gens)), fn)
+            sites += len(gens)
+        for m in meths:
+            f = repo.method(cname, m, inherited=False)
+            ok, fn = direct_ok[m]
+            if not ok:  # one materialising method may delegate to another (set -> append per element)
+                ok = any(call_name(c) in {f"self.{o}" for o in meths if o != m and direct_ok[o][0]} for c in calls_in(fn))
+            ctx.ob("C19.P4", f.qualname, ok, "children are materialised by generate() from the stored descriptor" if ok else
+                   f"{f.qualname} does not materialise its children with generate({desc or 'member'}): nested definitions are not read by the documented shape rule", key="via-generate", where=f.where)
+    ctx.floor("lazy materialisation sites", sites, 2)
+
+
 def run(ctx):
     check_tokenizer(ctx)
     check_generate(ctx)
+    check_materialisation(ctx)
     check_keys(ctx)
     check_catalogue(ctx)
